@@ -20,6 +20,7 @@ import (
 	"strconv"
 	"sync"
 	"sync/atomic"
+	"syscall"
 	"time"
 )
 
@@ -62,10 +63,12 @@ type Job struct {
 	Lo       int64  `json:"lo"`
 	Hi       int64  `json:"hi"`
 	Cfg      string `json:"cfg"` // full | two
+	CfgOnly  int    `json:"cfg_only,omitempty"` // 0 = every configuration of the set; n = only the n-th (1-based)
 	Thorough bool   `json:"thorough"`
 	Slow     bool   `json:"slow,omitempty"` // announce every invocation before it starts
 	One      *Case  `json:"one,omitempty"`  // run exactly this invocation
 	Attempt  int    `json:"attempt,omitempty"`
+	Inputs   [][]byte `json:"inputs,omitempty"` // edit family: the inputs of indices Lo..Hi-1 (base64 in JSON)
 }
 
 // Example is a failing case kept for a signature.
@@ -186,6 +189,7 @@ var (
 	curCfg   atomic.Int32
 	curStart atomic.Int64 // unix nanoseconds of the start of the running invocation; 0 = idle
 
+
 	outMu  sync.Mutex
 	outW   *bufio.Writer
 	stallD = func() time.Duration {
@@ -197,6 +201,20 @@ var (
 		return 20 * time.Second
 	}()
 )
+
+// The watchdog counts the CPU time the worker process consumed during the
+// running invocation (a worker runs one invocation at a time), so that an
+// overloaded machine cannot turn a slow moment into a suspected hang; a
+// generous wall-clock bound covers a hang that does not burn CPU.
+const wallFactor = 9 // wall-clock bound = wallFactor * stallD (180 s)
+
+func cpuNanos() int64 {
+	var ru syscall.Rusage
+	if err := syscall.Getrusage(syscall.RUSAGE_SELF, &ru); err != nil {
+		return 0
+	}
+	return ru.Utime.Nano() + ru.Stime.Nano()
+}
 
 const memLimit = 1536 << 20 // heap bytes a single tiny input may not exceed
 
@@ -224,20 +242,30 @@ func currentCase() (Case, int64, bool) {
 func monitor() {
 	t := time.NewTicker(100 * time.Millisecond)
 	var ms runtime.MemStats
+	var seenSt, baseCPU int64
 	n := 0
 	for range t.C {
 		st := curStart.Load()
 		if st == 0 {
+			seenSt = 0
+			continue
+		}
+		if st != seenSt {
+			// first sight of this invocation (at most one tick after it started)
+			seenSt, baseCPU = st, cpuNanos()
 			continue
 		}
 		why := ""
-		if time.Duration(time.Now().UnixNano()-st) > stallD {
+		n++
+		wall := time.Duration(time.Now().UnixNano() - st)
+		if wall > wallFactor*stallD {
+			why = "time"
+		} else if wall > stallD && n%5 == 0 && time.Duration(cpuNanos()-baseCPU) > stallD {
 			why = "time"
 		}
-		n++
 		if why == "" && n%2 == 0 {
 			runtime.ReadMemStats(&ms)
-			if ms.HeapAlloc > memLimit && curStart.Load() == st {
+			if ms.HeapAlloc > memLimit+uint64(len(ballast)) && curStart.Load() == st {
 				why = "mem"
 			}
 		}
@@ -272,6 +300,19 @@ var (
 func edits() []string {
 	editOnce.Do(func() { editList = editInputs() })
 	return editList
+}
+
+// ballast: the tiny-input families allocate ~26 KB per Script.Compile (the
+// 1024-slot globals array) with a live heap of a few MB, so the default pacing
+// would run a GC cycle every ~150 invocations, and a soft memory limit makes
+// the scavenger return and re-fault pages all the time (page faults are very
+// expensive on this VM). A never-touched pointer-free ballast raises the heap
+// goal instead: a cycle every ~32 MB of allocation, same pages reused.
+var ballast []byte
+
+func gcSetup() {
+	ballast = make([]byte, 32<<20)
+	debug.SetGCPercent(100)
 }
 
 func runJob(j Job) *JobRes {
@@ -325,17 +366,16 @@ func runJob(j Job) *JobRes {
 			buf = tokInput(buf, tokAlphabet(j.Alpha), j.K, idx)
 			input = buf
 			distinct = !inBytesFamily(input, b)
-			if distinct && j.Alpha == "sub" {
-				// sequences of the sub-alphabet no longer than the full-alphabet bound are already counted
-				distinct = j.K > b.TokFullLen
-			}
 		case "bytes":
 			buf = byteInput(buf, byteAlphabet(j.Alpha), j.K, idx)
 			input = buf
 		case "edit":
-			s := edits()[idx]
-			input = []byte(s)
-			distinct = !inBytesFamily(input, b) && !inTokFamily(s, b)
+			if int(idx-j.Lo) >= len(j.Inputs) {
+				res.Notes = append(res.Notes, "edit job without its inputs")
+				continue
+			}
+			input = j.Inputs[idx-j.Lo]
+			distinct = !inBytesFamily(input, b) && !inTokFamily(string(input), b)
 		case "limits":
 			gen = limitSpecs()[idx]
 			in, err := genLimit(gen)
@@ -347,9 +387,17 @@ func runJob(j Job) *JobRes {
 		}
 		info := &inputInfo{part: j.Part, idx: idx, input: input, gen: gen, cfgs: cfgs}
 		curInput.Store(info)
-		res.Inputs++
+		countInput := j.CfgOnly <= 1 // a job restricted to one configuration counts the input with the first one (parse)
+		if countInput {
+			res.Inputs++
+		}
 		parsed := false
+		ran := 0
 		for ci, c := range cfgs {
+			if j.CfgOnly != 0 && ci != j.CfgOnly-1 {
+				continue
+			}
+			ran++
 			o := tracked(info, ci, j.Slow)
 			res.Calls++
 			res.Outcomes[o.class]++
@@ -368,8 +416,11 @@ func runJob(j Job) *JobRes {
 					What: fmt.Sprintf("%s (mods=%s vars=%v) on input %s: %s", c.Entry, c.Mods, c.Vars, cs.Text, f.what)})
 			}
 		}
+		res.Counters["invocations/"+partKey] += int64(ran)
+		if !countInput {
+			continue
+		}
 		res.Counters["inputs/"+partKey]++
-		res.Counters["invocations/"+partKey] += int64(len(cfgs))
 		if parsed {
 			res.Counters["parsed-ok/"+partKey]++
 		}
@@ -379,7 +430,7 @@ func runJob(j Job) *JobRes {
 				res.Nontrivial++
 			}
 		}
-		if idx == j.Lo && res.Sample == nil {
+		if idx == j.Lo && res.Sample == nil && j.CfgOnly == 0 {
 			m := map[string]string{}
 			for ci, c := range cfgs {
 				m[fmt.Sprintf("%s/%s/vars=%v", c.Entry, c.Mods, c.Vars)] = classes[ci]
@@ -406,6 +457,7 @@ func workerMain() {
 	in := bufio.NewReaderSize(os.Stdin, 1<<20)
 	outW = bufio.NewWriterSize(os.Stdout, 1<<16)
 	go monitor()
+	gcSetup()
 	for {
 		line, err := in.ReadBytes('\n')
 		if len(bytes.TrimSpace(line)) > 0 {
